@@ -112,6 +112,13 @@ def on_frontier(ctx, workload, a, kw, result):
                 ctx.violate("C18", "ready_task_not_offered",
                             f"{s.uname} RELEASED at {rt} is missing from the offer at t={now} "
                             f"(lookahead {la})", {"lookahead": la})
+        elif st == "VIRTUAL" and s.released_obs > 0 and id(t) not in got:
+            # released earlier (while scheduled ahead), fell back to VIRTUAL on a retraction
+            rt = _us(t.release_time)
+            if rt is not None and 0 <= rt <= now + la:
+                ctx.violate("C18", "ready_task_not_offered",
+                            f"{s.uname} released at {rt} (now VIRTUAL after a retraction) is missing from "
+                            f"the offer at t={now}", {"lookahead": la, "state": "VIRTUAL"})
     for t in result:
         s = ctx.shadow(t)
         st = t.state.name
